@@ -1089,10 +1089,10 @@ func main() {
 	f := gallina.ParseFlags()
 	meta := gallina.NewMeta("C48", f.Seed, f.Tier)
 	meta.Rule = "3 corpus histories + seeded histories of 12-35 operations on a real agent.DB; a history is non-trivial when it has at least one checkpoint-creating truncation, one restart and one out-of-order rejection; distinct by (seed, index)"
-	cf := &gallina.CaseFile{Dir: f.Out, Type: "case", PerShard: 25,
+	cf := &gallina.CaseFile{Dir: f.Out, Type: "case", PerShard: 12,
 		Preamble: "From Coq Require Import List ZArith Bool Uint63.\nFrom Verif Require Import lib.Int64 model.Checkpoint model.Agent corr.CorrC48.\nImport ListNotations.\nOpen Scope uint63_scope.\n",
 		Footer:   gallina.StdFooter}
-	n := f.Count(45, 1000)
+	n := f.Count(40, 1000)
 	emit := func(idx int, w *world, kind string) {
 		must(w.db.Close())
 		os.RemoveAll(w.root)
